@@ -646,6 +646,47 @@ def c17 (inp obs : Json) : Res :=
               nontrivial := !inconclusive && (stepsOf obs).any fun (_, o) => (libTrace o).any fun e => e.name == "exists" }
   | some m => { agree := agree, specOk := false, why := m ++ (if agree then "" else " | " ++ why) }
 
+/-! #### C11 -/
+
+def c11Step (sin sobs : Json) : Option String × String :=
+  let evs := libTrace sobs
+  if (sobs.getObjVal? "hang").toOption.isSome then (some "the call did not return within the watchdog time", "") else
+  match (sobs.getObjVal? "panic").toOption with
+  | none => (none, "")
+  | some msg =>
+    -- an application that hands the library a nil value where its interface promises one is not hostile *input*
+    let nilFromApp := evs.any fun e => (e.name == "get" || e.name == "actorForInbox" || e.name == "actorForOutbox" || e.name == "outboxForInbox" || e.name == "newID")
+      && e.resp == Json.mkObj [("ok", Json.null)]
+    if nilFromApp then (none, "app-nil") else
+    if jstr sin "entry" == "getInbox" && jstr sin "kind" == "social" then
+      (some s!"GetInbox on a social-only actor panics: {msg.compress}", "C11-getinbox-social-only")
+    else (some s!"panic: {msg.compress}", "")
+
+def c11 (inp obs : Json) : Res :=
+  if jstr inp "k" == "decode" then
+    let res := jstr obs "res"
+    if res == "panic" || res == "hang" then
+      { agree := true, specOk := false, why := s!"streams.ToType/Serialize {res} on {jstr inp "mut"}: {jstr obs "msg"}" }
+    else { agree := true, specOk := true, nontrivial := res == "ok" || res == "err" }
+  else
+  -- a mutated value that cannot even be built cannot be handed to Send: nothing was run
+  if (stepsOf obs).any (fun (_, o) => (o.getObjVal? "setupError").toOption.isSome) then { agree := true, specOk := true, nontrivial := false } else
+  let (agree0, why, inconclusive0) := replayAll inp obs
+  -- a JSON null inside a property is kept by the Go value as an element of unknown kind but vanishes from its
+  -- serialisation, which is all the model sees: such cases are checked for crashes only
+  let nullMut := match jget inp "mutations" with
+    | .arr ms => ms.any fun m => let t := m.getStr?.toOption.getD ""; (t.splitOn ":null@").length > 1 || (t.splitOn ":arrayMixed@").length > 1
+    | _ => false
+  -- the social Update re-decodes the merged member map; the model assumes that re-decoding is the identity, which
+  -- hostile members (an object where a string belongs) break: C01's business, crash-checked only here
+  let updMerge := (why.splitOn "model calls update").length > 1 && (why.splitOn "next call is update").length > 1
+  let agree := agree0 || nullMut || updMerge
+  let inconclusive := inconclusive0 || ((nullMut || updMerge) && !agree0)
+  let results := (stepsOf obs).map fun (sin, sobs) => c11Step sin sobs
+  match results.filter fun r => r.1.isSome with
+  | [] => { agree := agree, specOk := true, why := why, nontrivial := !inconclusive }
+  | (msg, cls) :: _ => { agree := agree, specOk := false, why := msg.getD "" ++ (if agree then "" else " | " ++ why), known := cls }
+
 def pubGeneric (_prop : String) (inp obs : Json) : Res :=
   let (agree, why, inconclusive) := replayAll inp obs
   { agree := agree, specOk := true, why := why, nontrivial := !inconclusive }
